@@ -273,4 +273,4 @@ def run_case(spec):
 
 
 def shard(ctx):
-    ctx.hyp_run(strategy(), max_examples=ctx.pick(10, 160), shrink=False)
+    ctx.hyp_run(strategy(), max_examples=ctx.pick(14, 160), shrink=False)
